@@ -1,9 +1,52 @@
 """Gen/Lifecycle.lean — behavioural probes through the PUBLIC api of the compiled crate:
   leaveAtEnd : does shape()/shape_with_plan() give the buffer its default limits back when the buffer was EMPTY?
                (probe: shape an empty buffer, GlyphBuffer::clear, push_str of 20 000 chars, look at len())
-  randomSeed : random_state of a fresh apply context (hook verif::gsubgpos::random_sequence)."""
-import os
+  randomSeed : random_state of a fresh apply context (hook verif::gsubgpos::random_sequence).
+and one reading of the sources plus one behavioural probe for "clear() gives a fresh buffer":
+  bufferFields     : the field names of `pub struct hb_buffer_t` in src/hb/buffer.rs, in order (parsed on every run; the
+                     model's `Life.Field` must list exactly these)
+  clearKeeps       : the fields that `hb_buffer_t::clear()` does NOT bring back to the value of `hb_buffer_t::new()` —
+                     hook verif::buffer::clear_probe on a buffer whose EVERY field differs from a fresh one, every field
+                     read back and compared with the same probe on an all-default buffer
+  invisibleWriters : assignments to a field `invisible` anywhere in src/hb/*.rs outside the verif_hooks modules"""
+import os, re
 import gen_lean, vlib
+
+# key of the state line (harness/src/ops/lifecycle.rs::fmt_life) -> field(s) of hb_buffer_t it reads back
+STATE_KEYS = {"L": ["cluster_level"], "F": ["flags"], "M": ["max_len"], "O": ["max_ops"], "h": ["have_output"],
+              "s": ["have_separate_output"], "p": ["have_positions"], "ok": ["successful"], "i": ["idx"], "n": ["len"],
+              "o": ["out_len"], "sc": ["scratch_flags"], "se": ["serial"], "il": ["info"], "I": ["info"], "pl": ["pos"],
+              "D": ["direction"], "S": ["script"], "G": ["language"], "pre": ["context", "context_len"],
+              "post": ["context", "context_len"], "cx": ["context"], "sf": ["shaping_failed"],
+              "nf": ["not_found_variation_selector"], "inv": ["invisible"]}
+DIRTY = ("lcclear L=2 F=195 M=16384 O=77 h=1 s=1 p=1 ok=0 i=2 n=2 o=1 sc=5 se=9 il=3 pl=4 D=2 S=1098015074 G=x656e "
+         "pre=628,644 post=627,628,644 sf=1 nf=7 inv=3 I=10:4,11:5")
+FRESH = ("lcclear L=0 F=0 M=1073741823 O=536870911 h=0 s=0 p=0 ok=1 i=0 n=0 o=0 sc=0 se=0 il=0 pl=0 D=0 S=- G=- pre=- "
+         "post=- sf=0 nf=- inv=- I=-")
+
+
+def struct_fields():
+    src = open(os.path.join(vlib.REPO, "src", "hb", "buffer.rs")).read()
+    m = re.search(r"pub struct hb_buffer_t\s*\{(.*?)\n\}", src, re.S)
+    if not m:
+        raise vlib.BuildError("pub struct hb_buffer_t not found in src/hb/buffer.rs")
+    body = re.sub(r"//[^\n]*", "", m.group(1))
+    return re.findall(r"(?:pub(?:\([a-z]+\))?\s+)?([a-z_][a-z0-9_]*)\s*:", body)
+
+
+def invisible_writers():
+    d = os.path.join(vlib.REPO, "src", "hb")
+    n = 0
+    for fn in sorted(os.listdir(d)):
+        if fn.endswith(".rs"):
+            src = open(os.path.join(d, fn)).read().split("pub mod verif_hooks")[0]
+            src = re.sub(r"//[^\n]*", "", src)
+            n += len(re.findall(r"\.\s*invisible\s*=[^=]", src))
+    return n
+
+
+def kvs(line):
+    return dict(t.split("=", 1) for t in line.split() if "=" in t)
 
 
 def probe_font():
@@ -15,7 +58,22 @@ def generate(shim):
     f = probe_font()
     o = vlib.run_lines(shim, [f"lc {f} ; new ; shape - ; clear ; pushn 61 20000",
                               f"lc {f} ; new ; plan - ; clear ; pushn 61 20000",
-                              f"lcrand {f} 0"], nproc=1)
+                              f"lcrand {f} 0", DIRTY, FRESH], nproc=1)
+    fields = struct_fields()
+    try:
+        a, b = kvs(o[3]), kvs(o[4])
+        if not a or set(a) != set(b) or not set(a) - {"k", "e"} <= set(STATE_KEYS):
+            raise ValueError("unexpected state line")
+        if kvs(FRESH) != {k: v for k, v in b.items() if k in kvs(FRESH)}:
+            raise ValueError("clear() of an all-default buffer is not the all-default buffer")
+        kept = {x for k in a if a[k] != b[k] for x in STATE_KEYS[k]}
+        # every key of the dirty request differs from the fresh one: nothing is "reset" only because it never moved
+        same = [k for k, v in kvs(DIRTY).items() if kvs(FRESH)[k] == v]
+        if same:
+            raise ValueError(f"dirty probe leaves {same} at the default")
+    except Exception as e:
+        raise vlib.BuildError(f"clear-probe gave an outcome the model has no variant for: {o[3:5]} ({e})")
+    clear_keeps = [x for x in fields if x in kept] + sorted(kept - set(fields))
     try:
         ns = []
         for reply in o[:2]:
@@ -29,5 +87,8 @@ def generate(shim):
     body = ("namespace RbModel.Gen.Lifecycle\n"
             f"def leaveAtEnd : Bool := {'true' if leave else 'false'}\n"
             f"def randomSeed : Nat := {seed}\n"
+            "def bufferFields : List String := [" + ", ".join(f'"{x}"' for x in fields) + "]\n"
+            "def clearKeeps : List String := [" + ", ".join(f'"{x}"' for x in clear_keeps) + "]\n"
+            f"def invisibleWriters : Nat := {invisible_writers()}\n"
             "end RbModel.Gen.Lifecycle\n")
     return gen_lean.write_if_changed("Lifecycle.lean", body)
